@@ -31,6 +31,8 @@ type Variant struct {
 	// optional third fixture pool usdt/stake whose token is worth LESS than the standard coin (Tok3 > Std3):
 	// on a route that starts with it the intermediate standard amount is smaller than the token amount paid
 	Std3, Tok3 sdkmath.Int
+	// CreationFee, if positive, replaces the pool creation fee amount (5001 x tax 0.4 has a fractional tax share)
+	CreationFee int64
 }
 
 type poolObs struct {
@@ -98,6 +100,11 @@ func (d *Driver) Init(e *mc.Env) *mc.State {
 	if d.V.SubSecond {
 		// real block times carry nanoseconds: this variant runs at a block time half-way into a second
 		s.Ctx, _ = e.NextBlock(s.Ctx, 1500*time.Millisecond)
+	}
+	if d.V.CreationFee > 0 {
+		p := e.Coinswap.GetParams(s.Ctx)
+		p.PoolCreationFee = sdk.NewInt64Coin(p.PoolCreationFee.Denom, d.V.CreationFee)
+		must(s.Deliver(e, "fx-params", &cstypes.MsgUpdateParams{Authority: mc.Authority().String(), Params: p}), "params")
 	}
 	dl := deadline(s, false)
 	must(s.Deliver(e, "fx-pool1", &cstypes.MsgAddLiquidity{MaxToken: mc.CI("btc", d.V.Tok1), ExactStandardAmt: d.V.Std1,
